@@ -62,10 +62,25 @@ Probes == <<
   \* C19: every binding of a let is evaluated (a failing one fails the let), also when a later binding repeats its name
   P({"C19"}, <<108,101,116,32,36,97,32,61,32,36,110,111,112,101,44,32,36,97,32,61,32,96,49,96,32,105,110,32,36,97>>, {Err("undefined-variable")}),
   P({"C19"}, <<108,101,116,32,36,97,32,61,32,97,98,115,40,39,120,39,41,44,32,36,97,32,61,32,96,49,96,32,105,110,32,36,97>>, {Err("invalid-type")}),
+  \* C08 / C01: every member of a multi-select hash is evaluated (a failing one fails the expression), also when a later member repeats its key
+  P({"C08", "C01"}, <<123,97,58,32,97,98,115,40,39,120,39,41,44,32,97,58,32,96,49,96,125>>, {Err("invalid-type")}),
+  P({"C08", "C01"}, <<123,97,58,32,36,110,111,112,101,44,32,34,97,34,58,32,96,49,96,125>>, {Err("undefined-variable")}),
   \* C02: invalid-value only for negative or non-integral counts and offsets -- not for integral ones beyond 2^63
   P({"C02"}, <<115,112,108,105,116,40,39,97,44,98,39,44,32,39,44,39,44,32,96,57,50,50,51,51,55,50,48,51,54,56,53,52,55,55,53,56,48,56,96,41>>, {Arr(<<Str(<<97>>), Str(<<98>>)>>)}),
   P({"C02"}, <<102,105,110,100,95,102,105,114,115,116,40,39,97,98,99,39,44,32,39,98,39,44,32,96,45,49,101,51,48,96,41>>, {JInt(1)}),
   P({"C02"}, <<114,101,112,108,97,99,101,40,39,97,98,99,39,44,32,39,98,39,44,32,39,120,39,44,32,96,49,101,51,48,96,41>>, {Str(<<97,120,99>>)}) >>
+
+\* probes on a document whose numbers are held by particular Go carriers (member order a, b)
+CDoc(txt) == [t |-> "obj", o |-> << [k |-> <<97>>, v |-> [t |-> "num", big |-> txt]], [k |-> <<98>>, v |-> [t |-> "num", big |-> txt]] >>]
+CarrierProbes == <<
+  \* C14: a float64 that holds 2^60 exactly is printed by to_string with the shortest digits that read back as the same FLOAT
+  \* (1152921504606847000), which is another number: the text differs from that of every other carrier and does not convert back
+  [props |-> {"C14"}, e |-> <<116,111,95,110,117,109,98,101,114,40,116,111,95,115,116,114,105,110,103,40,97,41,41,32,61,61,32,97>>, adm |-> {JTrue}, doc |-> CDoc("1152921504606846976"), carriers |-> <<"float64", "float64">>],
+  [props |-> {"C14"}, e |-> <<116,111,95,115,116,114,105,110,103,40,97,41,32,61,61,32,116,111,95,115,116,114,105,110,103,40,98,41>>, adm |-> {JTrue}, doc |-> CDoc("1152921504606846976"), carriers |-> <<"float64", "int64">>],
+  [props |-> {"C14"}, e |-> <<116,111,95,110,117,109,98,101,114,40,116,111,95,115,116,114,105,110,103,40,97,41,41,32,61,61,32,98>>, adm |-> {JTrue}, doc |-> CDoc("1073741824"), carriers |-> <<"float32", "int64">>],
+  \* ... and the controls: every other carrier converts back
+  [props |-> {"C14"}, e |-> <<116,111,95,110,117,109,98,101,114,40,116,111,95,115,116,114,105,110,103,40,97,41,41,32,61,61,32,98>>, adm |-> {JTrue}, doc |-> CDoc("1152921504606846976"), carriers |-> <<"int64", "json">>],
+  [props |-> {"C14"}, e |-> <<116,111,95,110,117,109,98,101,114,40,116,111,95,115,116,114,105,110,103,40,97,41,41,32,61,61,32,98>>, adm |-> {JTrue}, doc |-> CDoc("1152921504606846976"), carriers |-> <<"decimal", "uint64">>] >>
 
 \* C09: time polynomial in the length of the expression, the size of the document and of the result.
 \* Families pre^d core post^d whose value stays tiny while the evaluation doubles with every level
@@ -83,6 +98,9 @@ Check == idx > 0 =>
   LET pr == Probes[bucket]
       case == [p |-> Prop, kind |-> "search", doc |-> Doc, expr |-> pr.e, adm |-> pr.adm]
   IN /\ (Emit /\ Prop \in pr.props) => PrintT("CASE " \o ToJson(case))
+     /\ (Emit /\ bucket <= Len(CarrierProbes) /\ Prop \in CarrierProbes[bucket].props) =>
+           PrintT("CASE " \o ToJson([p |-> Prop, kind |-> "search", doc |-> CarrierProbes[bucket].doc, expr |-> CarrierProbes[bucket].e,
+                                      adm |-> CarrierProbes[bucket].adm, carriers |-> CarrierProbes[bucket].carriers]))
      /\ (Emit /\ Prop = "C09" /\ bucket <= Len(Growth)) =>
            PrintT("CASE " \o ToJson([p |-> Prop, kind |-> "expgrowth"] @@ Growth[bucket]))
      \* the small members of the growth families have the stated value in the specification
